@@ -281,7 +281,7 @@ func drive(args []string) {
 
 	// ---- aggregate
 	agg := work.NewStats()
-	var runs, incon, detChecks, nonRepeat uint64
+	var runs, incon, detChecks, nonRepeat, restarts uint64
 	distinct := map[uint64]bool{}
 	policies := map[string]uint64{}
 	builds := map[string]uint64{}
@@ -293,6 +293,7 @@ func drive(args []string) {
 		incon += o.Incon
 		detChecks += o.DetChecks
 		nonRepeat += o.NonRepeat
+		restarts += o.Restarts
 		addStats(agg, o.Stats)
 		for _, h := range o.Distinct {
 			distinct[h] = true
@@ -391,36 +392,38 @@ func drive(args []string) {
 	}
 	hours := wall / 3600
 	cov := map[string]any{
-		"evaluations":            runs,
-		"distinct_nontrivial":    len(distinct),
-		"rule":                   rules[*prop],
-		"samples":                sampleAny,
-		"runs_per_hour":          float64(runs) / hours,
-		"seeds":                  fmt.Sprintf("VERIF_SEED=%d, run indices 0..%d (per-run seed = mix(VERIF_SEED, index))", *seed, maxIdx(outs)),
-		"api_calls_executed":     agg.Ops,
-		"state_changing_calls":   agg.StateOps,
-		"failed_calls":           agg.FailedOps,
-		"panicking_calls":        agg.PanicOps,
-		"observations_checked":   agg.Observes,
-		"simulated_time_steps":   agg.Steps,
-		"context_switches":       agg.Switches,
-		"in_call_switches":       agg.InOpSw,
-		"faults_fired":           agg.Faults,
-		"reach_probes":           compactProbes(agg.Probes),
-		"op_kinds":               agg.OpKinds,
-		"schedule_policies":      policies,
-		"runs_per_build":         builds,
-		"returned_slices_kept":   agg.Retained,
-		"entropy_reads":          agg.EntropyRd,
-		"determinism_rechecks":   detChecks,
-		"non_repeating_runs":     nonRepeat,
-		"inconclusive_runs":      incon,
-		"globals_monitored":      globals,
-		"components_real":        []string{"every package of the module under test, built from /repo's working tree (uninstrumented for single-task runs, yield-instrumented for scheduled runs)", "crypto/sha256, math/big, io.ReadFull as the library uses them"},
-		"components_stub":        []string{"operating-system entropy source (scripted device behind crypto/rand.Reader)", "caller memory (mmap arena with guard pages)", "goroutine scheduler (seeded token-passing scheduler over inserted yield points)"},
-		"oracle":                 "big-integer reference model (affine chord-and-tangent group law, SEC1, RFC 9380 from the standard's text), self-validated against the 10 RFC vectors at start-up",
-		"violations_found":       nv,
-		"distinct_violation_sig": len(reps),
+		"evaluations":          runs,
+		"distinct_nontrivial":  len(distinct),
+		"rule":                 rules[*prop],
+		"samples":              sampleAny,
+		"runs_per_hour":        float64(runs) / hours,
+		"seeds":                fmt.Sprintf("VERIF_SEED=%d, run indices 0..%d (per-run seed = mix(VERIF_SEED, index))", *seed, maxIdx(outs)),
+		"api_calls_executed":   agg.Ops,
+		"state_changing_calls": agg.StateOps,
+		"failed_calls":         agg.FailedOps,
+		"panicking_calls":      agg.PanicOps,
+		"observations_checked": agg.Observes,
+		"simulated_time_steps": agg.Steps,
+		"context_switches":     agg.Switches,
+		"in_call_switches":     agg.InOpSw,
+		"faults_fired":         agg.Faults,
+		"reach_probes":         compactProbes(agg.Probes),
+		"op_kinds":             agg.OpKinds,
+		"schedule_policies":    policies,
+		"runs_per_build":       builds,
+		"returned_slices_kept": agg.Retained,
+		"entropy_reads":        agg.EntropyRd,
+		"determinism_rechecks": detChecks,
+		"non_repeating_runs":   nonRepeat,
+		"worker_restarts_for_pristine_library_state": restarts,
+		"unconfirmed_reports_dropped":                len(unconfirmed),
+		"inconclusive_runs":                          incon,
+		"globals_monitored":                          globals,
+		"components_real":                            []string{"every package of the module under test, built from /repo's working tree (uninstrumented for single-task runs, yield-instrumented for scheduled runs)", "crypto/sha256, math/big, io.ReadFull as the library uses them"},
+		"components_stub":                            []string{"operating-system entropy source (scripted device behind crypto/rand.Reader)", "caller memory (mmap arena with guard pages)", "goroutine scheduler (seeded token-passing scheduler over inserted yield points)"},
+		"oracle":                                     "big-integer reference model (affine chord-and-tangent group law, SEC1, RFC 9380 from the standard's text), self-validated against the 10 RFC vectors at start-up",
+		"violations_found":                           nv,
+		"distinct_violation_sig":                     len(reps),
 	}
 	ev := map[string]any{
 		"property_id": *prop,
